@@ -43,7 +43,8 @@ def stmt_failure(kind, radius, search, ro, shape):
         # premise of the theorem C16_background_subtraction_balanced (sum of the ring != 0): the balancing ring must
         # intersect the requested array at all; otherwise there is nothing to balance against and the mask is the disk
         # itself (C16_background_subtraction_empty_ring; it used to be 0/0 = NaN, finding F17): zero sum not demanded
-        empty_ring = float(np.sum(masks.ring(cx, cy, shape[1], shape[0], ro, radius, antialiased=True))) == 0.0
+        # (decided with the harness' own disk renderer, not with the library's ring())
+        empty_ring = float(np.abs(cl.render_disk(cy, cx, shape[0], shape[1], ro, True) - cl.render_disk(cy, cx, shape[0], shape[1], radius, True)).sum()) == 0.0
     m = np.asarray(p.get_mask(shape), dtype=np.float64)
     if m.shape != tuple(shape):
         return 'mask shape %s != requested %s' % (m.shape, shape)
@@ -64,7 +65,7 @@ def stmt_failure(kind, radius, search, ro, shape):
         return 'mask value %.6g at pixel %s, distance %.3f > outer radius %.3f + 1' % (m[tuple(i)], tuple(i), r[tuple(i)], R)
     if m.max() > 1 + 1e-12:
         return 'mask exceeds 1: %.6g' % m.max()
-    if empty_ring and not np.array_equal(m, np.asarray(masks.circular(cx, cy, shape[1], shape[0], radius, antialiased=True), dtype=np.float64)):
+    if empty_ring and not np.allclose(m, cl.render_disk(cy, cx, shape[0], shape[1], radius, True), rtol=0, atol=1e-12):
         return 'BackgroundSubtraction mask for shape %s (ring entirely outside) is not the disk' % (shape,)
     if kind == 'BackgroundSubtraction' and min(cy, cx, shape[0] - 1 - cy, shape[1] - 1 - cx) >= R + 1:
         if abs(m.sum()) > 1e-9 * max(1.0, np.abs(m).sum()):
@@ -76,6 +77,14 @@ def stmt_failure(kind, radius, search, ro, shape):
 
 
 def guards_failure(rng):
+    # a search size of exactly zero (of any numeric type) or below is smaller than every radius: rejected like any other inconsistent value
+    for kind in ('Circular', 'RadialGradient', 'BackgroundSubtraction', 'RadialGradientBackgroundSubtraction'):
+        for s0 in (0, 0.0, np.float64(0.0), np.int64(0), -1.0, 1e-9):
+            try:
+                make(kind, 2.5, s0, 4.0)
+                return '%s(radius=2.5, search=%r%s) accepted' % (kind, s0, ', radius_outer=4.0' if 'Background' in kind else '')
+            except ValueError:
+                pass
     for _ in range(60):
         radius = float(rng.choice([1.5, 2.0, 3.25, 5.0]))
         ro = float(radius + rng.choice([-1.0, 0.0, 0.5, 2.0]))
@@ -123,6 +132,8 @@ def replay(body):
     a = body['args']
     if body.get('call') == 'UserTemplate.get_mask':
         fail = user_failure(*a['source'], *a['target'])
+    elif body.get('call') == 'constructor':
+        fail = guards_failure(np.random.default_rng(a.get('seed', 0)))
     else:
         fail = stmt_failure(a['kind'], a['radius'], a['search'], a.get('radius_outer'), tuple(a['shape']))
     print(json.dumps({'failure_now': fail}, indent=1))
@@ -255,9 +266,10 @@ def run(ctx):
     ctx.obligation('K:C16 built-in masks = Masks model (disk_aa, rgbs, bgsub_px) at %d pixels, centre shape//2' % len(vals), ndis == 0, '%d disagreements' % ndis)
 
     # (S) statement
-    g = guards_failure(rng)
+    gseed = int(rng.integers(0, 2 ** 31))
+    g = guards_failure(np.random.default_rng(gseed))
     if g:
-        ctx.violation('input', 'constructor guard: ' + g, {'kind': 'input', 'call': 'constructor', 'args': {'what': g}})
+        ctx.violation('input', 'constructor guard: ' + g, {'kind': 'input', 'call': 'constructor', 'args': {'what': g, 'seed': gseed}})
     nS = ctx.n(150, 2000)
     for k in range(nS):
         kind = ['Circular', 'RadialGradient', 'BackgroundSubtraction', 'RadialGradientBackgroundSubtraction'][k % 4]
@@ -276,6 +288,23 @@ def run(ctx):
             if kind == 'RadialGradientBackgroundSubtraction' and 'symmetric' in fail:
                 sig = 'RadialGradientBackgroundSubtraction default radial map centred on a half pixel'
             ctx.violation('input', fail, {'kind': 'input', 'call': 'get_mask', 'args': {'kind': kind, 'radius': radius, 'search': search, 'radius_outer': ro, 'shape': list(shape)}, 'failure': fail}, signature=sig)
+            break
+    # frames smaller than the pattern, every parity, radii on a fine grid: the balancing ring may touch, miss or just miss the array
+    small = [(fy, fx) for fy in range(2, ctx.n(7, 10)) for fx in range(2, ctx.n(7, 10))]
+    done = False
+    for shape in small:
+        for r4 in range(4, ctx.n(26, 40)):
+            radius = r4 / 4.0
+            for ro in (radius * 1.2, radius + 0.4):
+                fail = stmt_failure('BackgroundSubtraction', radius, ro + 1.0, ro, shape)
+                ctx.count(1, key=('small', radius, ro, shape))
+                if fail:
+                    ctx.violation('input', fail, {'kind': 'input', 'call': 'get_mask', 'args': {'kind': 'BackgroundSubtraction', 'radius': radius, 'search': ro + 1.0, 'radius_outer': ro, 'shape': list(shape)}, 'failure': fail})
+                    done = True
+                    break
+            if done:
+                break
+        if done:
             break
     # RadialGradientBackgroundSubtraction with a transition width other than the default 1
     for k in range(ctx.n(12, 80)):
